@@ -151,13 +151,29 @@ def conc_stage(ctx, exe, model, count):
                     return True
         return False
 
+    def outside_hypotheses(case):
+        """database holds storage for an account that is absent, empty or has neither code nor nonce
+        (db_wf fails): its storage turns "known" on the first change without a wipe - in revm's State
+        as well - so cache_coherent does not apply (and F1 is not involved)."""
+        t = case.split()
+        info, ndb = t[1], int(t[2])
+        vals = [int(t[4 + 2 * i], 16) for i in range(ndb)]
+        if info == "-":
+            bare = True
+        else:
+            bal, nonce, h, _ = info.split(".")
+            bal, nonce, h = int(bal, 16), int(nonce, 16), int(h, 16)
+            bare = (h <= 1 and bal == 0 and nonce == 0) or (h == 1 and nonce == 0)
+        return bare and any(v != 0 for v in vals)
+
     n = len(cases)
     bad_o = [i for i in range(n) if i >= len(O) or impl[i] != strip_ghost(O[i])]
     bad_f = [i for i in range(n) if i >= len(F) or impl[i] != strip_ghost(F[i])]
     variant = "original" if not bad_o else ("repaired" if not bad_f else "neither")
     ref = O if variant == "original" else F
-    inc = [i for i in range(min(n, len(ref))) if incoherent(ref[i])] if variant != "neither" else []
-    return dict(n=n, variant=variant, bad_original=bad_o[:5], bad_repaired=bad_f[:5], n_bad_original=len(bad_o),
+    inc_all = [i for i in range(min(n, len(ref))) if incoherent(ref[i])] if variant != "neither" else []
+    inc = [i for i in inc_all if not outside_hypotheses(cases[i])]
+    return dict(incoherent_outside_hypotheses=len(inc_all) - len(inc), n=n, variant=variant, bad_original=bad_o[:5], bad_repaired=bad_f[:5], n_bad_original=len(bad_o),
                 n_bad_repaired=len(bad_f), incoherent=inc, cases=cases, impl=impl, O=O, F=F,
                 gated=sum(1 for l in impl if "gated=1" in l))
 
@@ -189,8 +205,8 @@ def run(ctx):
 
     # the concurrent half on the real code: coarse schedules vs Cache/Conc.v, deterministic F1 window
     cs = conc_stage(ctx, exe, model, 2000 if ctx.quick else 40000)
-    core.log("conc: %d schedules (%d with a held database fetch); the code follows the `%s` ordering of Cache/Conc.v; %d runs end with a cached slot different from the committed value"
-             % (cs["n"], cs["gated"], cs["variant"], len(cs["incoherent"])))
+    core.log("conc: %d schedules (%d with a held database fetch); the code follows the `%s` ordering of Cache/Conc.v; %d runs within the hypotheses of cache_coherent end with a cached slot different from the committed value (%d more outside them: database storage for a bare account)"
+             % (cs["n"], cs["gated"], cs["variant"], len(cs["incoherent"]), cs["incoherent_outside_hypotheses"]))
     if cs["variant"] == "neither":
         i = (cs["bad_original"] or [0])[0]
         d["model_diffs"].append(dict(case=i, side="reader x committer vs Cache/Conc.v (neither ordering matches)",
@@ -248,7 +264,8 @@ def run(ctx):
         f1=dict(reproduced_on_real_code=f1_rep, lines=f1_lines, listed_as_known=known_f1),
         conc=dict(schedules=cs["n"], with_held_fetch=cs["gated"], ordering_followed_by_code=cs["variant"],
                   mismatches_vs_original=cs["n_bad_original"], mismatches_vs_repaired=cs["n_bad_repaired"],
-                  runs_ending_incoherent=len(cs["incoherent"])),
+                  runs_ending_incoherent=len(cs["incoherent"]),
+                  runs_incoherent_outside_hypotheses=cs["incoherent_outside_hypotheses"]),
         samples=[dict(case=d["cases"][i][:700], par=d["par"][i][:500], model=d["P"][i][:500]) for i in range(min(2, len(d["cases"])))],
     )
     return ctx.finish("proof", cov, [
